@@ -192,8 +192,10 @@ func (f *Frame) enterLoop(li *loopInfo, cur *State, r string) (*State, string) {
 			if err != nil {
 				continue
 			}
+			c.curTag = inv.Label
 			c.assume(rh, g)
 			c.noteHyp(inv.Expr, ev, rh)
+			c.curTag = ""
 		}
 		for _, u := range li.lc.Uses {
 			ev.useAxiom(u)
